@@ -268,6 +268,7 @@ fn main() {
          distinct = (object, site) pairs for which at least one read failed that the untampered store answers",
     );
     run.assume("AES-256-GCM and GMAC are unforgeable (cryptographic strength is not checked)");
+    run.assume("nonces, tags and generation salts are random per run (no seam): sites, reads and the verdict are the same every run, the split between failed and original-answer reads moves by a few dozen because a flipped bit in random bytes decodes differently");
     run.assume("a listing that omits an entry (undecodable document, compatibility mode) is a failure to answer, not a wrong answer");
     run.assume("e_tag / last_modified deviations in head / list answers are counted (soft_meta_field_deviations) but only bytes and sizes are part of the verdict");
     run.finish();
